@@ -19,7 +19,9 @@ package vmm
 //@ ghost mapLogFlags map[uintptr]PageTableEntryFlag
 
 // errors that originate in the vmm layer (uninterpreted; other packages assume their private errors are not among them)
-//@ ufun vmmError(e *kernel.Error) bool
+//@ pred vmmError(e *kernel.Error) = mm.memError(e)
+// the label is given to vmm's own errors by definition
+//@ axiom vmmOwnErrs(x int): mm.memError(errNoHugePageSupport) && mm.memError(errAttemptToRWMapReservedFrame) && mm.memError(ErrInvalidMapping) && mm.memError(errEarlyReserveNoSpace)
 //@ spec pageOf(a uintptr) mm.Page = mm.Page((a &^ 4095) >> 12)
 //@ pred wfReserve() = earlyReserveLastUsed <= tempMappingAddr && earlyReserveLastUsed&0xfff == 0
 
@@ -36,9 +38,39 @@ package vmm
 //@   ensures nofit:   size > old(earlyReserveLastUsed) ==> err != nil
 //@   ensures fit:     size <= old(earlyReserveLastUsed) ==> err == nil
 
-// Map, as seen by its region-level callers: one more entry in the call log;
-// it may fail. (Its effect on the page tables is the subject of C04.)
-//@ func Map(page mm.Page, frame mm.Frame, flags PageTableEntryFlag) (err *kernel.Error)
+// ---- the page-table view of the software (C04) ---------------------------------------------
+// The kernel reaches the entry that translates virtual address v at level L through the
+// recursive mapping in the last slot of the top-level table: pteL(v) is the virtual address walk
+// computes for it (closed form of walk's address arithmetic; checked against walk itself because
+// Map/Unmap/pteForAddress are verified with walk inlined). ASSUMED, not verified: the MMU
+// resolves these addresses to the live tables (the recursive-mapping invariant of the hardware
+// walk); everything below is stated over the memory words the software reads and writes.
+//@ spec pteIdx(v uintptr, s uintptr) uintptr = (v >> s) & 511
+//@ spec pte0(v uintptr) uintptr = pdtVirtualAddr + (pteIdx(v, 39) << 3)
+//@ spec pte1(v uintptr) uintptr = (pte0(v) << 9) + (pteIdx(v, 30) << 3)
+//@ spec pte2(v uintptr) uintptr = (pte1(v) << 9) + (pteIdx(v, 21) << 3)
+//@ spec pte3(v uintptr) uintptr = (pte2(v) << 9) + (pteIdx(v, 12) << 3)
+//@ pred presentE(e uint64) = e & 1 != 0
+//@ pred hugeE(e uint64) = e & 0x80 != 0
+// first level (0..2) whose entry is not present; 3 when the three upper levels are present
+//@ spec firstMissing(v uintptr) int = ite(!presentE(mem64(pte0(v))), 0, ite(!presentE(mem64(pte1(v))), 1, ite(!presentE(mem64(pte2(v))), 2, 3)))
+// a huge-page entry is met before (or at) the first missing level
+//@ pred hugeOnPath(v uintptr) = hugeE(mem64(pte0(v))) || (presentE(mem64(pte0(v))) && (hugeE(mem64(pte1(v))) || (presentE(mem64(pte1(v))) && hugeE(mem64(pte2(v))))))
+// the bytes Map may write for address v when the first missing level is m: the entry words on
+// v's path from level m down, and the table pages created below level m
+//@ pred mapTouches(v uintptr, m int, a uintptr) = a - pte3(v) < 8 || (m <= 2 && (a - pte2(v) < 8 || a - (pte2(v) << 9) < 4096)) || (m <= 1 && (a - pte1(v) < 8 || a - (pte1(v) << 9) < 4096)) || (m <= 0 && (a - pte0(v) < 8 || a - (pte0(v) << 9) < 4096))
+//@ pred zeroGuard(frame mm.Frame, flags PageTableEntryFlag) = protectReservedZeroedPage && frame == ReservedZeroedFrame && flags&FlagRW != 0
+//@ pred mapped(v uintptr) = presentE(mem64(pte0(v))) && presentE(mem64(pte1(v))) && presentE(mem64(pte2(v))) && presentE(mem64(pte3(v)))
+
+//@ func walk(virtAddr uintptr, walkFn pageTableWalker)
+//@   modifies *
+//@   loop 1 unroll 4
+
+// Map as its callers in the region layer and above see it (C07, C14, goruntime): one more entry
+// in the call log, possibly an error. ABSTRACTION (assumed): page-table memory, the TLB and the
+// frame allocator's state are not part of those callers' view of memory - they are folded into
+// the ghost `pageTables`. The log clauses are the same ones proved of the body below.
+//@ func Map~callers(page mm.Page, frame mm.Frame, flags PageTableEntryFlag) (err *kernel.Error)
 //@   trusted
 //@   modifies mapCalls, mapLogPage, mapLogFrame, mapLogFlags, pageTables
 //@   ensures mapCalls == old(mapCalls) + 1
@@ -46,6 +78,34 @@ package vmm
 //@   ensures mapLogFrame == upd(old(mapLogFrame), old(mapCalls), frame)
 //@   ensures mapLogFlags == upd(old(mapLogFlags), old(mapCalls), flags)
 //@   ensures err != nil ==> vmmError(err)
+
+// Map against the page-table words (C04, C06). frame < 2^40: a physical frame number (52-bit physical addresses).
+//@ func Map(page mm.Page, frame mm.Frame, flags PageTableEntryFlag) (err *kernel.Error)
+//@   property C04 C06
+//@   inline walk
+//@   requires uintptr(frame) < 0x10000000000 && uintptr(page) < 0x10000000000000
+//@   at entry: ghost mapLogPage = upd(mapLogPage, mapCalls, page)
+//@   at entry: ghost mapLogFrame = upd(mapLogFrame, mapCalls, frame)
+//@   at entry: ghost mapLogFlags = upd(mapLogFlags, mapCalls, flags)
+//@   at entry: ghost mapCalls = mapCalls + 1
+//@   modifies mapCalls, mapLogPage, mapLogFrame, mapLogFlags, pageTables, mem, mm.allocState, cpu.flushes, cpu.flushLog
+//@   ensures mapCalls == old(mapCalls) + 1
+//@   ensures mapLogPage == upd(old(mapLogPage), old(mapCalls), page)
+//@   ensures mapLogFrame == upd(old(mapLogFrame), old(mapCalls), frame)
+//@   ensures mapLogFlags == upd(old(mapLogFlags), old(mapCalls), flags)
+//@   ensures zero: zeroGuard(frame, flags) ==> err == errAttemptToRWMapReservedFrame && mem == old(mem) && cpu.flushes == old(cpu.flushes)
+//@   ensures huge: !zeroGuard(frame, flags) && old(hugeOnPath(uintptr(page) << 12)) ==> err == errNoHugePageSupport && mem == old(mem) && cpu.flushes == old(cpu.flushes)
+//@   ensures frame: forall(a, uintptr, !old(mapTouches(uintptr(page) << 12, firstMissing(uintptr(page) << 12), a)) ==> mem8(a) == old(mem8(a)))
+//@   ensures present: !zeroGuard(frame, flags) && !old(hugeOnPath(uintptr(page) << 12)) && old(firstMissing(uintptr(page) << 12)) == 3 ==> err == nil
+//@   ensures leaf: err == nil ==> mem64(pte3(uintptr(page) << 12)) == (uint64(frame) << 12) | uint64(flags)
+//@   ensures path: err == nil && pteIdx(uintptr(page) << 12, 39) != 511 ==> mem64(pte0(uintptr(page) << 12)) & 0x81 == 1 && mem64(pte1(uintptr(page) << 12)) & 0x81 == 1 && mem64(pte2(uintptr(page) << 12)) & 0x81 == 1
+//@   ensures flush: err == nil ==> cpu.flushes == old(cpu.flushes) + 1 && cpu.flushLog[old(cpu.flushes)] == uintptr(page) << 12
+//@   ensures noflush: err != nil ==> cpu.flushes == old(cpu.flushes)
+//@   ensures empty3: err == nil && pteIdx(uintptr(page) << 12, 39) != 511 && old(firstMissing(uintptr(page) << 12)) <= 2 ==> forall(a, uintptr, a - (pte2(uintptr(page) << 12) << 9) < 4096 && a - pte3(uintptr(page) << 12) >= 8 ==> mem8(a) == 0)
+//@   ensures empty2: err == nil && pteIdx(uintptr(page) << 12, 39) != 511 && old(firstMissing(uintptr(page) << 12)) <= 1 ==> forall(a, uintptr, a - (pte1(uintptr(page) << 12) << 9) < 4096 && a - pte2(uintptr(page) << 12) >= 8 ==> mem8(a) == 0)
+//@   ensures empty1: err == nil && pteIdx(uintptr(page) << 12, 39) != 511 && old(firstMissing(uintptr(page) << 12)) <= 0 ==> forall(a, uintptr, a - (pte0(uintptr(page) << 12) << 9) < 4096 && a - pte1(uintptr(page) << 12) >= 8 ==> mem8(a) == 0)
+//@   ensures errs: err != nil ==> vmmError(err)
+//@   at return: use vmmOwnErrs(0)
 
 //@ func MapRegion(frame mm.Frame, size uintptr, flags PageTableEntryFlag) (page mm.Page, err *kernel.Error)
 //@   property C07
@@ -83,6 +143,6 @@ package vmm
 //@   loop 1 decreases startPage + pageCount - curPage
 
 // Unmap, as seen by callers outside vmm: it only changes page-table memory.
-//@ func Unmap(page mm.Page) (err *kernel.Error)
+//@ func Unmap~callers(page mm.Page) (err *kernel.Error)
 //@   trusted
 //@   modifies pageTables
